@@ -9,7 +9,8 @@
       name (`.names`/`.latch` output, driven net of a `.subckt`) that another instance already
       carries is not applied (the instance keeps / gets the provisional name);
     * a formal that widens a port of an already instanced model gives every instance the new pin;
-    * `.latch` adds the ports it needs to `generic-latch` when an earlier latch had fewer fields.
+    * `.latch` adds the ports it needs to `generic-latch` when an earlier latch had fewer fields;
+    * a `formal[i]=actual` gives the port pins up to index i also when the actual is `unconn`.
   No Mathlib.
 -/
 import Spydr.Eblif.Model
@@ -266,12 +267,14 @@ def applyInfo (st : St) (idx : Nat) (parent : String) : List InfoStmt → Except
   | InfoStmt.attr k v :: r => applyInfo (updInst st idx (fun i => { i with attrs := dictSet i.attrs k v })) idx parent r
   | InfoStmt.param k v :: r => applyInfo (updInst st idx (fun i => { i with params := dictSet i.params k v })) idx parent r
 
-/-- `parse_subcircuit_port`: the port is created on demand and gets (at most) one more pin. -/
+/-- `parse_subcircuit_port` (repaired: the port is created on demand and gets pins up to the formal's
+    index, also when the actual is `unconn`; the original gave it at most one more pin, so upper bus
+    bits that are `unconn` on every instance were lost). -/
 def declFormal (st : St) (model : String) (fa : String × String) : Except Err St := do
   let (pn, pi) ← splitIdx fa.1
   let st := addPort st model pn Dir.undef 0
   let w := portWidth st model pn
-  pure (if pi + 1 ≤ w then st else growPort st model pn (w + 1))
+  pure (if pi + 1 ≤ w then st else growPort st model pn (pi + 1))
 
 def declFormals (st : St) (model : String) : List (String × String) → Except Err St
   | [] => pure st
